@@ -397,6 +397,21 @@ def run_solvers(res, spec):
                                 res.violation(check, "solve-result-incomplete-or-infeasible", sig=sig, **common)
                             elif impl.snap_schedule(S) != snap:
                                 res.violation(check, "solve-differs-from-step-by-step-run", sig=sig, **common)
+                            # solve() on a dispatcher the caller has already advanced
+                            # (documented optional argument): from every prefix of the
+                            # solver's own run it completes the same schedule
+                            for k in sorted({1, ref.N // 2, ref.N - 1, ref.N}):
+                                solver = DispatchingRuleSolver(rule, chooser, flt)
+                                d = Dispatcher(inst, ready_operations_filter=solver.ready_operations_filter)
+                                for _, (oid, _, m) in steps[:k]:
+                                    d.dispatch(inst.jobs[ref.ops[oid][0]][ref.ops[oid][1]], m)
+                                signal.setitimer(signal.ITIMER_VIRTUAL, 20.0)
+                                S2 = solver.solve(inst, d)
+                                signal.setitimer(signal.ITIMER_VIRTUAL, 0)
+                                res.add("transitions", ref.N)
+                                if not S2.is_complete() or impl.snap_schedule(S2) != snap:
+                                    res.violation(check, "solve-from-advanced-dispatcher-differs", sig=sig, dispatched_before=k, **common)
+                                    break
                         except _Hang:
                             res.violation(check, "solver-does-not-terminate", sig=sig, via="solve", **common)
                         except Exception as exc:  # noqa: BLE001
